@@ -68,10 +68,10 @@ LEVEL_TEXT = ('Every configuration of the stated cross product is written by the
 LEVEL_NOTE = ('Trusted: ref/fixedcol.py + ref/layout/incon.json, ref/fortnum.py. Not claimed: mixed variable counts, '
               'negative three-digit-exponent values, non-canonical block names, num_variables above the actual count.')
 
-TIME_LIMIT = 10.0         # a case costs milliseconds; the limit only bounds a hang on a changed tree
-MAX_TIMEOUTS_PER_UNIT = 3 # after that the unit's remaining cases are skipped (counted as cap_hit: not exhaustive)
+TIME_LIMIT = 6.0          # a case costs milliseconds; the limit only bounds a hang on a changed tree
+MAX_TIMEOUTS_PER_UNIT = 2 # after that the unit's remaining cases are skipped (counted as cap_hit: not exhaustive)
 _timeouts = [0]
-BIG_TIME_LIMIT = 600.0
+SHIPPED_LIMIT = {False: 30.0, True: 200.0}    # small files cost < 1 s, the two big ones 3 s and 9 s
 
 STYLES = {
     'autough2': fc.styled(real='E0', trim=True),                 # E20.14 / E15.9, records without trailing blanks
@@ -220,7 +220,7 @@ SHIPPED = [('AUTOUGH2/3/case3.incon', 2, False), ('TOUGH2/1/case1.incon', 3, Fal
 
 
 def specs_shipped(tier):
-    return [{'shipped': p, 'nvar': nv} for p, nv, big in SHIPPED if tier == 'thorough' or not big]
+    return [{'shipped': p, 'nvar': nv, 'big': big} for p, nv, big in SHIPPED if tier == 'thorough' or not big]
 
 
 GROUPS = [('cross', specs_cross, 64), ('empty', specs_empty, 1), ('many', specs_many, 12), ('dev', specs_dev, 2),
@@ -327,7 +327,9 @@ def describe(inc):
     if t is not None:
         t = {'kcyc': t.get('kcyc'), 'iter': t.get('iter'), 'nm': t.get('nm'), 'tstart': f(t.get('tstart')),
              'sumtim': f(t.get('sumtim'))}
-    return {'blocks': blocks, 'timing': t, 'simulator': inc.simulator, 'index_names': names}
+    # access by name is the documented interface: it must reach the same conditions as access by position
+    by_name_ok = all(inc[name] is inc[i] for i, name in enumerate(names)) if len(set(names)) == len(names) else False
+    return {'blocks': blocks, 'timing': t, 'simulator': inc.simulator, 'index_names': names, 'by_name_ok': by_name_ok}
 
 
 # ------------------------------------------------------------------------------------------ oracles
@@ -416,6 +418,9 @@ def cmp_mem(M, D, expect_timing, C, F, ddelta=0):
         F.add('block.name', 'block names %r came back as %r (blocklist %r)'
               % ([b['name'] for b in M['blocks']][:6], [b['name'] for b in D['blocks']][:6], D['index_names'][:6]),
               C['name'])
+    if not D['by_name_ok']:
+        F.add('block.index', 'inc[name] does not reach the conditions at the position of name (names %r)'
+              % (D['index_names'][:6],), C['name'])
     for db, mb in zip(D['blocks'], M['blocks']):
         if (db['nseq'], db['nadd']) != (mb['nseq'], mb['nadd']):
             F.add('nseq/nadd', 'block %r nseq, nadd %r came back as %r' % (mb['name'], (mb['nseq'], mb['nadd']),
@@ -477,6 +482,7 @@ def evaluate(spec, tier='thorough'):
         if os.path.exists(p):
             os.remove(p)
     viol = []
+    t_before = _timeouts[0]
     reset = spec['reset']
     long_form = M['timing'] is not None and not reset
     # ---- 1. library writes, reference reads
@@ -532,6 +538,8 @@ def evaluate(spec, tier='thorough'):
             B.add('raises', 'reading the library-written file raised %s: %s' % (type(e).__name__, e),
                   '%s,%s' % (type(e).__name__, exc_cls))
         viol += B.items
+    if _timeouts[0] > t_before:
+        return viol, 'timeout', stats       # a case that hung once is not driven further
     # ---- 3. reference writes, library reads
     if spec.get('styles') == 'cross':
         names = CROSS_STYLES
@@ -555,6 +563,8 @@ def evaluate(spec, tier='thorough'):
         except core.CaseTimeout:
             _timeouts[0] += 1
             Fs.add('timeout', 'reading the reference-written file did not finish in %d s' % TIME_LIMIT, exc_cls)
+            viol += Fs.items
+            break           # a hang is not retried in the other styles
         except Exception as e:
             Fs.add('raises', 'reading the reference-written file raised %s: %s' % (type(e).__name__, e),
                    '%s,%s' % (type(e).__name__, exc_cls))
@@ -661,7 +671,7 @@ def shipped_check(spec):
 
 def run_case(spec, tier):
     if 'shipped' in spec:
-        with core.timelimit(BIG_TIME_LIMIT):
+        with core.timelimit(SHIPPED_LIMIT[bool(spec.get('big'))]):
             return shipped_check(spec)
     return evaluate(spec, tier)     # every library call inside carries its own time limit
 
